@@ -1,0 +1,44 @@
+//! Observer of the metric-log writer's file operations, in program order (feature `metric_log`).
+//! Off unless a harness calls `start()`.
+use std::sync::Mutex;
+
+#[derive(Debug, Clone)]
+pub enum FileOp {
+    /// a file was created (or truncated) at this path
+    Create(String),
+    /// a file was removed
+    Remove(String),
+    /// bytes appended to the current metric log file
+    WriteLog(Vec<u8>),
+    /// bytes appended to the current index file
+    WriteIdx(Vec<u8>),
+}
+
+static OPS: Mutex<Option<Vec<FileOp>>> = Mutex::new(None);
+
+pub fn start() {
+    *OPS.lock().unwrap() = Some(Vec::new());
+}
+
+pub fn stop() {
+    *OPS.lock().unwrap() = None;
+}
+
+/// The operations recorded since the last call.
+pub fn take() -> Vec<FileOp> {
+    match OPS.lock().unwrap().as_mut() {
+        Some(v) => std::mem::take(v),
+        None => Vec::new(),
+    }
+}
+
+pub fn record(op: FileOp) {
+    if let Some(v) = OPS.lock().unwrap().as_mut() {
+        v.push(op);
+    }
+}
+
+/// The base file name of the metric log of an application.
+pub fn metric_filename(app_name: &str, with_pid: bool) -> String {
+    crate::core::log::metric::verif_metric_filename(app_name, with_pid)
+}
